@@ -2467,7 +2467,10 @@ func (c *Compiler) BuildBaseType(
 	typ2 := refType.ChildByType(parse.NodeTyp)
 	tdef := refType.Def()
 	thasdef := refType.HasDef()
-	return c.BuildType(cfgNode, typ2, tdef, thasdef, schema.Current), tname, false
+	// What the typedef's own type statement refers to is judged against the
+	// typedef's status: a deprecated typedef may build on a deprecated one.
+	return c.BuildType(cfgNode, typ2, tdef, thasdef,
+		c.getStatus(refType, schema.Current)), tname, false
 }
 
 func (c *Compiler) CheckMinMax(n parse.Node, min, max uint) {
